@@ -7,7 +7,7 @@
 S="$1"; TIER="${2:-quick}"; shift; [ $# -gt 0 ] && shift
 [ -f "$S/patch.diff" ] || { echo "no patch.diff in $S"; exit 3; }
 IDS="$*"
-[ -n "$IDS" ] || IDS=$(python3 -c "import json,sys;print(json.load(open(sys.argv[1]))['property'])" "$S/meta.json")
+[ -n "$IDS" ] || IDS=$(python3 -c "import json,sys;m=json.load(open(sys.argv[1]));print(m.get('run', m['property']))" "$S/meta.json")
 D=$(mktemp -d /tmp/pox-seed-XXXXXX)
 rsync -a --exclude .git /repo/ "$D"/
 ( cd "$D" && git init -q . >/dev/null 2>&1 && git apply --whitespace=nowarn "$OLDPWD/$S/patch.diff" 2>/dev/null ) \
